@@ -4,10 +4,10 @@ from __future__ import annotations
 from .common import *   # noqa: F401,F403
 from . import instr_gen as ig
 
-LEAF = ['Leaf_tick', 'Leaf_special', 'Leaf_hopo']      # translated leaf functions this property's model relies on (Tie/<name>.v)
+LEAF = ['Leaf_tick', 'Leaf_special', 'Leaf_hopo', 'Leaf_note']      # translated leaf functions this property's model relies on (Tie/<name>.v)
 RULE = ("tracks of 2-12 note groups through Chart.from_file at resolutions {1,2,3,4,5,100,191,192,193,200,480,500,1000,random}: ordered pairs drawn from all 32 lane combinations "
         "(open included) x distances {thr-1, thr, thr+1, 1, 10*thr} (thr = resolution/3 to the nearest tick) x (tap, forced) in {0,1}^2 at every position; judged against the decision table "
-        "spec_hopo. Non-trivial: some consecutive pair is at distance thr-1..thr+1 or carries a flag; distinct by text")
+        "spec_hopo; the section is [ExpertSingle] or any of the 40 instrument sections (drums included); lane lines are occasionally written twice in a tick. Non-trivial: some consecutive pair is at distance thr-1..thr+1 or carries a flag; distinct by text")
 ASSUMPTIONS = ["a forced FIRST note is the documented rejection (ValueError) and is generated only in the malformed stream"]
 IN_TYPE = "((bool * Z * list (bool * bool)) * %s)" % PARSE_IN
 VERDICT = "fun i o => parse_verdict cfg (snd i) o"
@@ -16,15 +16,15 @@ SPEC = "fun i o => C04_spec (fst i) o"
 RES = [1, 2, 3, 4, 5, 100, 191, 192, 193, 200, 480, 500, 1000]
 
 
-def make_case(R, groups, wf=True):
+def make_case(R, groups, wf=True, header="ExpertSingle"):
     lines = ["%d = N %d %d" % (g["tick"], i, l) for g in groups for i, l in g["lines"]]
-    text = chart_text(res=R, tracks=[("ExpertSingle", lines)])
+    text = chart_text(res=R, tracks=[(header, lines)])
     ch, exc, out = parse_case(text)
     th = ig.thr(R)
     ticks = [g["tick"] for g in groups]
     near = any(th - 1 <= b - a <= th + 1 for a, b in zip(ticks, ticks[1:]))
     flags = any(g["tap"] or g["forced"] for g in groups)
-    return dict(case=dict(R=R, groups=groups, wf=wf, text=text),
+    return dict(case=dict(R=R, groups=groups, wf=wf, text=text, header=header),
                 in_term="((%s, %s, %s), %s)" % (coq_bool(wf), coq_Z(R), coq_list("(%s, %s)" % (coq_bool(g["tap"]), coq_bool(g["forced"])) for g in groups), parse_in_term(text)),
                 out_term=out, nontrivial=near or flags,
                 tags=["R%%3=%d" % (R % 3), "near_threshold" if near else "far", "flags" if flags else "noflags", "impl_error" if exc is not None else "impl_ok"],
@@ -36,7 +36,12 @@ def note_lines(rng, m):
     sus = rng.choice([0, 0, 0, 48, 144, 1000])
     if m == 0:
         return [(7, sus)]
-    return [(i, sus + (7 * i if rng.random() < 0.2 and sus else 0)) for i in range(5) if (m >> i) & 1]
+    lines = [(i, sus + (7 * i if rng.random() < 0.2 and sus else 0)) for i in range(5) if (m >> i) & 1]
+    if rng.random() < 0.12:
+        # a lane line written twice in its tick: the note is still the same set of lanes
+        for _ in range(rng.choice([1, 1, 2])):
+            lines.insert(rng.randint(0, len(lines)), rng.choice(lines))
+    return lines
 
 
 def gen(rng, R):
@@ -68,20 +73,20 @@ def cases(ctx, n):
     rng = ctx["rng"]
     out = []
     for c in load_corpus("C04"):
-        out.append(make_case(c["R"], c["groups"], c.get("wf", True)))
+        out.append(make_case(c["R"], c["groups"], c.get("wf", True), c.get("header", "ExpertSingle")))
     # forced first note: documented rejection (malformed stream, model = implementation only)
     out.append(make_case(192, [dict(tick=0, lines=[(0, 0), (5, 0)], tap=False, forced=True), dict(tick=10, lines=[(1, 0)], tap=False, forced=False)], wf=False))
     for R in RES:
         out.append(make_case(R, gen(rng, R)))
     while len(out) < n:
         R = rng.choice(RES + [rng.randint(1, 5000)])
-        out.append(make_case(R, gen(rng, R)))
+        out.append(make_case(R, gen(rng, R), header=pick_header(rng, 0.6)))
     return out
 
 
 def run(ctx, only=None):
     if only:
-        cs = [make_case(c["R"], c["groups"], c.get("wf", True)) for c in only if c]
+        cs = [make_case(c["R"], c["groups"], c.get("wf", True), c.get("header", "ExpertSingle")) for c in only if c]
     else:
         cs = cases(ctx, 260 if ctx["tier"] == "quick" else 8000)
     return run_cases("C04", cs, IN_TYPE, PARSE_OUT, VERDICT, SPEC, shard_size=30)
